@@ -89,6 +89,8 @@ def gen_plan(rng, index, tier):
         cfg["fuelHandler"] = True
         if cfg["blueprint"]["plate"]:
             st["stationaryBlockFlags"] = ["GRID_PLATE"]
+        if rng.random() < 0.2:
+            cfg["blueprint"].update({"geom": "cartesian", "symmetry": rng.choice(["full", "quarter reflective through center assembly"])})
     else:
         cfg["reactor"] = "smallest"
     coupling = rng.random() < 0.25
